@@ -19,7 +19,7 @@ def _compilable(summ):
     return True
 
 
-ENGINE_B = {'template': 't_enum', 'kinds': ['enum_'], 'max_quick': 8, 'max_thorough': 48, 'accept': _compilable}
+ENGINE_B = {'template': 't_enum', 'kinds': ['enum_'], 'max_quick': 12, 'max_thorough': 64, 'accept': _compilable}
 BASES = [('u8', 8, False), ('u16', 16, False), ('u32', 32, False), ('u64', 64, False),
          ('i8', 8, True), ('i16', 16, True), ('i32', 32, True), ('i64', 64, True)]
 VARIANTS = ['V0', 'V1', 'V2', 'V3', 'V4', 'V5', 'V6', 'V7']
